@@ -330,3 +330,31 @@ func ruleOptsPointerFresh(c *Ctx) {
 	}
 	R.Ob("options/pointer fields found", "-", n >= 1, "no pointer field store recognised")
 }
+
+// ruleXtextDecodesEveryPlus (C11, C14): decodeXtext may hand back its input undecoded only when the input contains
+// no '+' at all; every other accepting result comes out of the hexchar replacement.
+func ruleXtextDecodesEveryPlus(c *Ctx) {
+	R := c.R
+	R.Rule("R-xtext-decodes-every-plus", "E3+E4", "decodeXtext returns its argument unchanged only when it contains no '+'; otherwise the result is built by the hexchar replacement over the value", 2)
+	f := c.A.Func("decodeXtext")
+	if f == nil {
+		return
+	}
+	nRaw, nDec := 0, 0
+	for _, a := range acceptingReturns(f) {
+		r := a.(*ssa.Return)
+		d := describe(returnedValues(r)[0])
+		if d == "param0" {
+			nRaw++
+			r1, _ := c.ReachableUnder(a, []string{`strings.Contains(param0,"+") == true`})
+			r2, _ := c.ReachableUnder(a, []string{`strings.IndexByte(param0,43) >= 0`})
+			R.Ob(c.siteKey(a, "undecoded result only without '+'"), c.P.InstrPos(a), !r1 || !r2,
+				"decodeXtext can return its argument as it is although the argument contains a '+' (for example as its first character): the hexchar is neither decoded nor validated and the backend receives the wire form")
+			continue
+		}
+		nDec++
+		R.Ob(c.siteKey(a, "decoded result comes from the hexchar replacement"), c.P.InstrPos(a), strings.Contains(d, "ReplaceAllStringFunc(hexcharRe,param0,"), "decodeXtext returns "+d+": the replacement does not run over the whole value")
+	}
+	R.Ob("decodeXtext/has a decoding result", c.P.Pos(f.Pos()), nDec >= 1, "no accepting return fed by the hexchar replacement")
+	_ = nRaw
+}
